@@ -143,7 +143,9 @@ func (g *Gen) ptrTerm(p *Ptr) string {
 		g.vc.decl(f, fmt.Sprintf("(declare-fun %s (Int) Int)", f))
 		t := fmt.Sprintf("(%s %s)", f, p.Base)
 		// the address of a field of an object is never nil (taking it through a nil base panics first)
-		g.vc.assume("", fmt.Sprintf("(not (= %s 0))", t))
+		if !strings.Contains(t, "!b") { // not under a quantifier binder
+			g.vc.assume("", fmt.Sprintf("(not (= %s 0))", t))
+		}
 		return t
 	case pElem:
 		g.vc.decl("ea$", "(declare-fun ea$ (Int Int) Int)")
